@@ -6,6 +6,7 @@
 -/
 import Honeycomb.Lemmas.WFAlloc
 import Honeycomb.Props.C01
+import Honeycomb.Props.C03
 
 set_option linter.unusedSimpArgs false
 
@@ -211,6 +212,14 @@ theorem C18_addressable {nb : Nat} {m : Map X} (h : WF nb m) (s d : Nat) (hs : s
   unfold Map.okA
   have := h.asz s hs
   simp [hs]; omega
+
+/-- **C18, orbits**: on a well-formed 2-map, no orbit (any admissible policy, transactional or
+    not) of a dart that is in use ever reports a removed dart -/
+theorem C18_orbit_excludes_removed {m : Map X} (h : WF 3 m) {pol : Policy} (hp : C03.PolOK pol) {d : Nat}
+    (hd0 : d ≠ 0) (hd : d < m.n) (hu : m.unused d = false) :
+    ∃ out, run (orbit2 (X := X) m.n pol d) m = (.ok out, m) ∧ ∀ x, x ∈ out → m.unused x = false := by
+  have hs := C03.C03_orbit2_spec h hp hd0 hd
+  exact ⟨C03.orb m pol d, hs.1, C03.C03_orbit_of_in_use_is_in_use h hp hd0 hd hu⟩
 
 /-! ## D10: the reused slot is NOT blank on the current code (negation witness) -/
 
